@@ -149,6 +149,24 @@ def path_contract(tier, seed):
                             if p in seen and seen[p] is not node:
                                 bad(f'{kind}: two nodes share one path', f'{p!r}: {seen[p]!r} and {node!r}', **w)
                             seen[p] = node
+            # fn:path of a node that is not in the tree of the context root (a node bound to a variable): the path is relative to the node's own tree
+            try:
+                rn0 = get_node_tree(doc, namespaces=None)
+                _, nodes0 = actual_nodes(rn0)
+                other_root = get_node_tree(T.ET.XML('<unrelated><z/></unrelated>'))
+                fn_path_var = XPath31Parser().parse('path($n)')
+                for node in nodes0[:: max(1, len(nodes0) // 6)]:
+                    n += 1
+                    p = fn_path_var.evaluate(XPathContext(root=other_root, variables={'n': node}))
+                    if not isinstance(p, str):
+                        bad('fn:path of a node of another tree than the context root is not a string', repr(p), tree=repr(t)[:300], lib=lib)
+                        continue
+                    got = _select(rn0, p)
+                    if len(got) != 1 or got[0] is not node:
+                        bad('fn:path of a node of another tree: the path does not select exactly the node in its own tree', f'{p!r} selects {got!r:.160}',
+                            tree=repr(t)[:300], lib=lib)
+            except ElementPathError as ex:
+                bad('fn:path of a node of another tree raises', f'{type(ex).__name__}: {str(ex)[:100]}', tree=repr(t)[:300], lib=lib)
             # lazy element trees (nodes without recorded document positions)
             if lib == 'et':
                 try:
@@ -198,6 +216,19 @@ def path_contract(tier, seed):
                 bad('etree_iter_paths (absolute): the path cannot be evaluated', f'{type(ex).__name__}: {str(ex)[:100]}', tree=repr(t)[:300], lib=lib)
             if len({p for _, p in pairs}) != len(pairs):
                 bad('etree_iter_paths: two elements share one path', repr([p for _, p in pairs])[:200], tree=repr(t)[:300], lib=lib)
+    # nodes built outside any tree: the path is still an XPath expression
+    from elementpath.xpath_nodes import NamespaceNode, ProcessingInstructionNode, CommentNode, TextNode, AttributeNode
+    for label, mk in (('namespace', lambda: NamespaceNode('p', 'urn:p')), ('default namespace', lambda: NamespaceNode(None, 'urn:p')),
+                      ('processing instruction', lambda: ProcessingInstructionNode(T.ET.ProcessingInstruction('tgt', 'x'))),
+                      ('comment', lambda: CommentNode(T.ET.Comment('c'))), ('text', lambda: TextNode('t')), ('attribute', lambda: AttributeNode('k', 'v'))):
+        n += 1
+        try:
+            p = mk().path
+            XPath31Parser().parse(p)
+            if '{' in p.replace('Q{', ''):
+                bad(f'parentless {label} node: the path contains an unexpanded format field', p, tree='-', lib='-')
+        except Exception as e:      # noqa
+            bad(f'parentless {label} node: the path is not an XPath expression', f'{type(e).__name__}: {str(e)[:100]}', tree='-', lib='-')
     fails = [{'key': k, 'items': it[:4], 'count': len(it), 'what': f'{k}: {it[0]["detail"]} [{it[0].get("lib")}, {it[0].get("root")}, '
               f'fragment={it[0].get("fragment")}, tree={it[0]["tree"][:140]}]'} for k, it in fam.items()]
     return {'evaluations': n, 'distinct': n, 'exhaustive': False,
